@@ -37,7 +37,7 @@ TRUSTED_BASE = [
     "Coq 8.16.1 kernel incl. vm_compute and primitive PrimFloat/Uint63 (no native_compute)",
     "stdlib axioms only, as printed by Print Assumptions (Reals: ClassicalDedekindReals.sig_forall_dec, sig_not_dec, "
     "FunctionalExtensionality.functional_extensionality_dep; Classical_Prop.classic via Flocq) - none declared by this development",
-    "translator tools/py2coq.py (fail-closed Python-ast -> Gallina) for the regenerated definitions in coq/Gen",
+    "translators tools/py2coq.py and tools/py2coq_imp.py (imperative front end over coq/Base/Imp.v), with tools/py2coq_c15.py and harness/c20_gen.py (all fail-closed Python-ast -> Gallina; spec-declared patterns and primitives are trusted readings) for the regenerated definitions in coq/Gen",
     "correspondence harness (Python side transmits inputs/outputs faithfully; float.hex literals <-> Coq hex float literals)",
     "IEEE gap: theorems are over R (or Z/lists); code runs binary64/float32; matched bit-exactly where modelled",
     "external engines are oracles, not verified: PROJ/pyproj, pykdtree/scipy kd-tree, shapely, libm, sha1, PyYAML, dask/xarray plumbing",
